@@ -23,6 +23,8 @@
 (*        had been suspended for two periods between its Mkdir and return  *)
 (*   fresh-lock-taken-over   a takeover although the deciding reads saw no *)
 (*        stale time stamp                                                 *)
+(*   takeover-without-recheck  a takeover whose removal was not preceded   *)
+(*        by the staleness re-check of ReleaseIfStale                      *)
 (*   double-holder[-unexplained]  an acquire returned success while        *)
 (*        another live holder with a running heartbeat had not begun to    *)
 (*        release (unexplained: none of the root causes above preceded it) *)
@@ -35,21 +37,21 @@ VARIABLES dir, hb, dirStale, hbStale,       \* filesystem
           gen, creator,                     \* ghost: generation counter, creator of each generation
           holds, hbOn, alive,               \* contender status
           acquiring, ownGen,                \* generation created and not yet confirmed / last generation created
-          decidedGen, sawStale,             \* last staleness decision: generation looked at, stale stamp seen
+          decidedGen, sawStale, rechecked,  \* last staleness decision: generation looked at, stale stamp seen, made by the re-check of ReleaseIfStale
           relStartGen,                      \* value of gen when the contender's own release began
           stalled,                          \* ghost: two periods passed while the contender sat between its Mkdir and its return
           lifeSince,                        \* ghost: a sign of life was written since the contender's last staleness decision
           viol
 
-mvars == <<dir, hb, dirStale, hbStale, gen, creator, holds, hbOn, alive, acquiring, ownGen, decidedGen, sawStale, relStartGen, lifeSince, stalled, viol>>
+mvars == <<dir, hb, dirStale, hbStale, gen, creator, holds, hbOn, alive, acquiring, ownGen, decidedGen, sawStale, rechecked, relStartGen, lifeSince, stalled, viol>>
 
-RootCauses == {"release-removes-successor", "stale-takeover-double", "takeover-decision-outdated", "slow-acquirer-overtaken", "fresh-lock-taken-over"}
+RootCauses == {"takeover-without-recheck", "release-removes-successor", "stale-takeover-double", "takeover-decision-outdated", "slow-acquirer-overtaken", "fresh-lock-taken-over"}
 
 MInit == /\ dir = 0 /\ hb = FALSE /\ dirStale = FALSE /\ hbStale = FALSE
          /\ gen = 0 /\ creator = <<>>
          /\ holds = [p \in Procs |-> FALSE] /\ hbOn = [p \in Procs |-> FALSE] /\ alive = [p \in Procs |-> TRUE]
          /\ acquiring = [p \in Procs |-> 0] /\ ownGen = [p \in Procs |-> 0]
-         /\ decidedGen = [p \in Procs |-> 0] /\ sawStale = [p \in Procs |-> FALSE]
+         /\ decidedGen = [p \in Procs |-> 0] /\ sawStale = [p \in Procs |-> FALSE] /\ rechecked = [p \in Procs |-> FALSE]
          /\ relStartGen = [p \in Procs |-> 0]
          /\ lifeSince = [p \in Procs |-> FALSE] /\ stalled = [p \in Procs |-> FALSE]
          /\ viol = {}
@@ -66,12 +68,12 @@ MMkdirOk(p) ==
     /\ acquiring' = [acquiring EXCEPT ![p] = gen + 1] /\ ownGen' = [ownGen EXCEPT ![p] = gen + 1]
     /\ lifeSince' = [q \in Procs |-> TRUE]
     /\ stalled' = [stalled EXCEPT ![p] = FALSE]
-    /\ UNCHANGED <<holds, hbOn, alive, decidedGen, sawStale, relStartGen, viol>>
+    /\ UNCHANGED <<holds, hbOn, alive, decidedGen, sawStale, rechecked, relStartGen, viol>>
 
 \* Chtimes on the lock directory (refreshes it if it exists)
 MTouchDir == /\ dirStale' = (IF dir # 0 THEN FALSE ELSE dirStale)
              /\ lifeSince' = (IF dir # 0 THEN [q \in Procs |-> TRUE] ELSE lifeSince)
-             /\ UNCHANGED <<dir, hb, hbStale, gen, creator, holds, hbOn, alive, acquiring, ownGen, decidedGen, sawStale, relStartGen, stalled, viol>>
+             /\ UNCHANGED <<dir, hb, hbStale, gen, creator, holds, hbOn, alive, acquiring, ownGen, decidedGen, sawStale, rechecked, relStartGen, stalled, viol>>
 
 \* heartbeat file created / truncated / written / re-stamped by p's heartbeat writer.
 \* implicitParent: the backend re-creates a missing lock directory (in-memory backend)
@@ -83,18 +85,19 @@ MBeat(p, implicitParent) ==
                  /\ hb' = TRUE /\ hbStale' = FALSE /\ dirStale' = FALSE
             ELSE UNCHANGED <<dir, hb, hbStale, gen, creator, dirStale>>
     /\ lifeSince' = (IF dir # 0 \/ implicitParent THEN [q \in Procs |-> TRUE] ELSE lifeSince)
-    /\ UNCHANGED <<holds, hbOn, alive, acquiring, ownGen, decidedGen, sawStale, relStartGen, stalled, viol>>
+    /\ UNCHANGED <<holds, hbOn, alive, acquiring, ownGen, decidedGen, sawStale, rechecked, relStartGen, stalled, viol>>
 
 \* the heartbeat file is removed
 MRemoveHb == /\ hb' = FALSE
-             /\ UNCHANGED <<dir, dirStale, hbStale, gen, creator, holds, hbOn, alive, acquiring, ownGen, decidedGen, sawStale, relStartGen, lifeSince, stalled, viol>>
+             /\ UNCHANGED <<dir, dirStale, hbStale, gen, creator, holds, hbOn, alive, acquiring, ownGen, decidedGen, sawStale, rechecked, relStartGen, lifeSince, stalled, viol>>
 
 \* signatures raised by the removal of the lock directory by p
 RemovalVerdict(p, takeover) ==
     LET g == dir
         c == creator[g]
     IN IF takeover
-       THEN IF ~sawStale[p] THEN {"fresh-lock-taken-over"}
+       THEN IF ~rechecked[p] THEN {"takeover-without-recheck"}
+            ELSE IF ~sawStale[p] THEN {"fresh-lock-taken-over"}
             ELSE IF decidedGen[p] # g THEN {"stale-takeover-double"}
             ELSE IF lifeSince[p] THEN {"takeover-decision-outdated"}
             ELSE IF alive[c] /\ ownGen[c] = g /\ stalled[c] THEN {"slow-acquirer-overtaken"}
@@ -107,13 +110,14 @@ MRemoveDirOk(p, takeover) ==
     /\ dir # 0 /\ ~hb
     /\ viol' = viol \cup RemovalVerdict(p, takeover)
     /\ dir' = 0 /\ dirStale' = FALSE
-    /\ UNCHANGED <<hb, hbStale, gen, creator, holds, hbOn, alive, acquiring, ownGen, decidedGen, sawStale, relStartGen, lifeSince, stalled>>
+    /\ UNCHANGED <<hb, hbStale, gen, creator, holds, hbOn, alive, acquiring, ownGen, decidedGen, sawStale, rechecked, relStartGen, lifeSince, stalled>>
 
 \* --- contender events -------------------------------------------------------------------------
 \* p's staleness decision (IsStale): what it looked at and whether it saw an old time stamp
-MDecide(p, stale) ==
+MDecide(p, stale, recheck) ==
     /\ decidedGen' = [decidedGen EXCEPT ![p] = dir]
     /\ sawStale' = [sawStale EXCEPT ![p] = stale]
+    /\ rechecked' = [rechecked EXCEPT ![p] = recheck]
     /\ lifeSince' = [lifeSince EXCEPT ![p] = FALSE]
     /\ UNCHANGED <<dir, hb, dirStale, hbStale, gen, creator, holds, hbOn, alive, acquiring, ownGen, relStartGen, stalled, viol>>
 
@@ -124,28 +128,28 @@ MAcquireOk(p) ==
                           ELSE IF viol \cap RootCauses = {} THEN {"double-holder-unexplained"} ELSE {"double-holder"})
     /\ holds' = [holds EXCEPT ![p] = TRUE] /\ hbOn' = [hbOn EXCEPT ![p] = TRUE]
     /\ acquiring' = [acquiring EXCEPT ![p] = 0]
-    /\ UNCHANGED <<dir, hb, dirStale, hbStale, gen, creator, alive, ownGen, decidedGen, sawStale, relStartGen, lifeSince, stalled>>
+    /\ UNCHANGED <<dir, hb, dirStale, hbStale, gen, creator, alive, ownGen, decidedGen, sawStale, rechecked, relStartGen, lifeSince, stalled>>
 
 \* an acquire call of p returned without the lock (locked / stale / error): nothing is held
 MAcquireFailed(p) ==
     /\ acquiring' = [acquiring EXCEPT ![p] = 0]
-    /\ UNCHANGED <<dir, hb, dirStale, hbStale, gen, creator, holds, hbOn, alive, ownGen, decidedGen, sawStale, relStartGen, lifeSince, stalled, viol>>
+    /\ UNCHANGED <<dir, hb, dirStale, hbStale, gen, creator, holds, hbOn, alive, ownGen, decidedGen, sawStale, rechecked, relStartGen, lifeSince, stalled, viol>>
 
 \* p begins to release (Unlock called)
 MReleaseBegin(p) ==
     /\ holds' = [holds EXCEPT ![p] = FALSE] /\ hbOn' = [hbOn EXCEPT ![p] = FALSE]
     /\ relStartGen' = [relStartGen EXCEPT ![p] = gen]
-    /\ UNCHANGED <<dir, hb, dirStale, hbStale, gen, creator, alive, acquiring, ownGen, decidedGen, sawStale, lifeSince, stalled, viol>>
+    /\ UNCHANGED <<dir, hb, dirStale, hbStale, gen, creator, alive, acquiring, ownGen, decidedGen, sawStale, rechecked, lifeSince, stalled, viol>>
 
 \* more than two heartbeat periods pass without any refresh
 MTick == /\ dir # 0
          /\ dirStale' = TRUE /\ hbStale' = TRUE
          /\ stalled' = [q \in Procs |-> stalled[q] \/ acquiring[q] # 0]
-         /\ UNCHANGED <<dir, hb, gen, creator, holds, hbOn, alive, acquiring, ownGen, decidedGen, sawStale, relStartGen, lifeSince, viol>>
+         /\ UNCHANGED <<dir, hb, gen, creator, holds, hbOn, alive, acquiring, ownGen, decidedGen, sawStale, rechecked, relStartGen, lifeSince, viol>>
 
 \* p dies: it and its heartbeat writer stop for ever
 MDie(p) == /\ alive' = [alive EXCEPT ![p] = FALSE] /\ hbOn' = [hbOn EXCEPT ![p] = FALSE]
-           /\ UNCHANGED <<dir, hb, dirStale, hbStale, gen, creator, holds, acquiring, ownGen, decidedGen, sawStale, relStartGen, lifeSince, stalled, viol>>
+           /\ UNCHANGED <<dir, hb, dirStale, hbStale, gen, creator, holds, acquiring, ownGen, decidedGen, sawStale, rechecked, relStartGen, lifeSince, stalled, viol>>
 
 \* --- the property as invariants (used for the Intended configuration) --------------------------
 MutualExclusion == Cardinality({p \in Procs : holds[p] /\ alive[p] /\ hbOn[p]}) <= 1
